@@ -171,7 +171,9 @@ def run_tsc(case):
     ltype = case["ltype"]
     lower = (0.0 if not case["lo"] else (20.0 if ltype == "abs" else 0.5))
     upper = (np.inf if not case["hi"] else (120.0 if ltype == "abs" else 1.5))
-    alloc = {p: at.TimeSeries(t=[2019.0] + list(yrs), vals=[init[p]] * (1 + len(yrs))) for p in names}  # (a parametric paired adjustment requires the allocation to state a value in its first year)
+    # spending differs between the constrained years (relative bounds and totals are year specific); a parametric paired adjustment requires a value in its first year
+    yfac = {y: (1.0 if i == 0 else 1.6) for i, y in enumerate(yrs)}
+    alloc = {p: at.TimeSeries(t=[2019.0] + list(yrs), vals=[init[p]] + [init[p] * yfac[y] for y in yrs]) for p in names}
     ins = at.ProgramInstructions(start_year=2019.0, alloc=alloc)
     adjs = []
     mix = case["mix"]
@@ -193,30 +195,25 @@ def run_tsc(case):
         x0, xmin, xmax = opt.get_initialization(w.progset, ins)
     except InvalidInitialConditions:
         return dict(states=0, transitions=0, nontrivial=False, violations=[], counters=dict(tsc_invalid_initial=1))
-    # expected feasibility, from the spec: per constrained year, sum of bounds vs total
-    expect_unresolvable = False
-    if mix == "plain" or plain:
-        pass
+    # expected bounds / totals / feasibility per constrained year, from the spec (never from the library's own tables)
+    def bounds_year(p, t):
+        x = init[p] * yfac[t]
+        return (lower if ltype == "abs" else lower * x), (upper if (ltype == "abs" or not np.isfinite(upper)) else upper * x)
+
+    def feasible_year(t):
+        tot = sum(init[p] * yfac[t] for p in names) * case["bf"]
+        return sum(bounds_year(p, t)[0] for p in names) <= tot <= sum(bounds_year(p, t)[1] for p in names)
     try:
         hard = opt.get_hard_constraints(x0, ins)
     except UnresolvableConstraint:
         counters["tsc_unresolvable"] = 1
         # must really be unresolvable: recompute from the spec for the plain mix
-        if mix == "plain":
-            for t in yrs:
-                tot = sum(init[p] for p in names) * case["bf"]
-                lo = sum((lower if ltype == "abs" else lower * init[p]) for p in names)
-                hi = sum((upper if (ltype == "abs" or not np.isfinite(upper)) else upper * init[p]) for p in names)
-                if lo <= tot <= hi:
-                    vs.append(V("resolvable-constraint-rejected", f"{lab}: total {tot} lies within the summed bounds [{lo}, {hi}] but UnresolvableConstraint was raised", None))
+        if mix == "plain" and all(feasible_year(t) for t in yrs):
+            vs.append(V("resolvable-constraint-rejected", f"{lab}: in every constrained year the total lies within the summed bounds but UnresolvableConstraint was raised", None))
         return dict(states=0, transitions=0, nontrivial=False, violations=vs, counters=counters)
-    if mix == "plain":
-        tot = sum(init[p] for p in names) * case["bf"]
-        lo = sum((lower if ltype == "abs" else lower * init[p]) for p in names)
-        hi = sum((upper if (ltype == "abs" or not np.isfinite(upper)) else upper * init[p]) for p in names)
-        if not (lo <= tot <= hi):
-            vs.append(V("impossible-constraint-not-reported", f"{lab}: total {tot} outside the summed bounds [{lo}, {hi}] but get_hard_constraints did not raise UnresolvableConstraint", None))
-            return dict(states=0, transitions=0, nontrivial=False, violations=vs, counters=counters)
+    if mix == "plain" and not all(feasible_year(t) for t in yrs):
+        vs.append(V("impossible-constraint-not-reported", f"{lab}: the total lies outside the summed bounds in some constrained year but get_hard_constraints did not raise UnresolvableConstraint", None))
+        return dict(states=0, transitions=0, nontrivial=False, violations=vs, counters=counters)
     # proposals
     opts = []
     for a, lo_, hi_ in zip(x0, xmin, xmax):
@@ -248,8 +245,7 @@ def run_tsc(case):
                     lo_, hi_ = hc["bounds"][t][prog]
                     if mix == "plain":
                         # bounds recomputed from the spec, not taken from the library's own table
-                        lo_ = lower if ltype == "abs" else lower * init[prog]
-                        hi_ = upper if (ltype == "abs" or not np.isfinite(upper)) else upper * init[prog]
+                        lo_, hi_ = bounds_year(prog, t)
                     if val < lo_ - 1e-9 * max(1, abs(lo_)) or val > hi_ + 1e-9 * max(1, abs(hi_) if np.isfinite(hi_) else 1):
                         vs.append(V("program-bound-violated", f"{lab} proposal={list(prop)}: {prog} in {t} gets {val!r}, bounds [{lo_}, {hi_}]", None))
                     got += val
@@ -259,6 +255,8 @@ def run_tsc(case):
                     if val < 50.0 - 1e-6 or val > 400.0 + 1e-6:
                         vs.append(V("package-total-violated", f"{lab} proposal={list(prop)}: package total {val!r} outside [50, 400]", None))
                     got += val
+            if mix == "plain":
+                tot = sum(init[p] * yfac[t] for p in names) * case["bf"]  # required total recomputed from the spec
             if abs(got - tot) > 1e-6 * max(1.0, tot):
                 vs.append(V("total-spend-violated", f"{lab} proposal={list(prop)}: spending in {t} sums to {got!r}, required {tot!r}", None))
         if mix.startswith("package"):
